@@ -312,7 +312,7 @@ func (e *envelopeEncryption) loadLatestOrCreateIntermediateKey(ctx context.Conte
 		return nil, err
 	}
 
-	if ikEkr == nil || e.isEnvelopeInvalid(ikEkr) {
+	if ikEkr == nil || e.isEnvelopeInvalid(ikEkr) || ikEkr.ParentKeyMeta == nil {
 		return e.createIntermediateKey(ctx)
 	}
 
@@ -476,6 +476,10 @@ func (e *envelopeEncryption) loadIntermediateKey(ctx context.Context, meta KeyMe
 
 	if ekr == nil {
 		return nil, errors.New("error loading intermediate key from metastore")
+	}
+
+	if ekr.ParentKeyMeta == nil {
+		return nil, errors.New("intermediate key record has no parent key meta")
 	}
 
 	sk, err := e.getOrLoadSystemKey(ctx, *ekr.ParentKeyMeta)
